@@ -295,6 +295,11 @@ def e2e_sync(v, U, snap, scratch, rng, case, k):
         rc, out = arr.run("sync")
         if rc != 0:
             raise vlib.ToolFailure("sync failed (rc %d) in e2e scenario %s: %s" % (rc, arr.conf_text, out[-5:]))
+        # a second sync: the tool's own files (content copies inside the data disks, their .lock and .tmp companions) exist
+        # now and are met by the scan; they must stay out of the array and the second sync must find nothing to do
+        rc, out = arr.run("sync")
+        if rc != 0:
+            raise vlib.ToolFailure("second sync failed (rc %d) in e2e scenario %s: %s" % (rc, arr.conf_text, out[-5:]))
         rc, out = arr.run("list")
         files, links, ok = listed(out)
         if rc != 0 or not ok:
